@@ -400,7 +400,7 @@ class BodyInfo:
         starts = [b for _, b in edges]
         # switch edges that contradict the constant every definition reachable from here gave the tested carrier local
         # (`break Some(err)` .. `if let Some(err) = failure`) are not paths
-        inf = self.infeasible_from(starts) if starts else []
+        inf = self.infeasible_from(starts, avoid_blocks=avoid_blocks, avoid_edges=avoid_edges, stop_blocks=stop_blocks) if starts else []
         if inf:
             avoid_edges = list(avoid_edges) + inf
         return self.body.reach(starts, avoid_blocks=avoid_blocks, stop_blocks=stop_blocks, avoid_edges=avoid_edges)
@@ -498,30 +498,48 @@ class BodyInfo:
         self._variant_phi = out
         return out
 
-    def infeasible_from(self, starts):
-        """Switch edges that cannot be taken on any path starting at `starts`: a switch on a constant-defined local
-        (boolean or enum carrier) all of whose definitions reachable from `starts` assign the same value v, and which
-        cannot be reached from `starts` without passing one of them, only takes its v edge."""
+    def infeasible_from(self, starts, avoid_blocks=(), avoid_edges=(), stop_blocks=()):
+        """Switch edges that cannot be taken on any execution starting at `starts` (within the given restrictions): for a
+        switch on a constant-defined carrier local (boolean or enum), hypothesise that only its `v` edge is taken; the
+        hypothesis stands if, in the graph pruned accordingly, every definition of the local that is still reachable
+        assigns `v` and the switch cannot be reached without passing one of them.  (Sound by induction on the first pruned
+        edge an execution would take: up to that point it stayed inside the pruned graph, so the last definition before
+        the switch assigned `v`.)"""
         body = self.body
         out = []
-        R = None
-        for e, defs in list(self.bool_phi_switches) + list(self.variant_phi_switches):
-            if R is None:
-                R = body.reach(starts)
-            if e["block"] not in R:
-                continue
-            inR = [(b, v) for b, v in defs if b in R]
-            vals = {v for b, v in inR}
-            if len(vals) != 1:
-                continue
-            v = next(iter(vals))
-            if e["block"] in body.reach(starts, avoid_blocks=[b for b, _ in inR]) and e["block"] not in [b for b, _ in inR]:
-                continue
-            for lab, tb in e["edges"].items():
-                if tb is None or lab == v:
+        cands = list(self.bool_phi_switches) + list(self.variant_phi_switches)
+        if not cands or not starts:
+            return out
+        avoid_blocks = list(avoid_blocks)
+        stop_blocks = list(stop_blocks)
+        R0 = body.reach(starts, avoid_blocks=avoid_blocks, avoid_edges=list(avoid_edges), stop_blocks=stop_blocks)
+        for _round in range(3):
+            added = False
+            for e, defs in cands:
+                if e["block"] not in R0:
                     continue
-                if e["kind"] == "bool" or lab != "otherwise" or v in e["edges"]:
-                    out.append((e["block"], tb))
+                if any((e["block"], tb) in out for tb in e["edges"].values() if tb is not None):
+                    continue
+                for v in sorted({v for b, v in defs if b in R0}, key=str):
+                    hyp = [(e["block"], tb) for lab, tb in e["edges"].items()
+                           if tb is not None and lab != v and (e["kind"] == "bool" or lab != "otherwise" or v in e["edges"])]
+                    if not hyp or e["edges"].get(v) is None and e["kind"] != "bool":
+                        continue
+                    av_e = list(avoid_edges) + out + hyp
+                    R = body.reach(starts, avoid_blocks=avoid_blocks, avoid_edges=av_e, stop_blocks=stop_blocks)
+                    if e["block"] not in R or e["block"] in stop_blocks:
+                        continue
+                    inR = [(b, w) for b, w in defs if b in R]
+                    if not inR or any(w != v for b, w in inR):
+                        continue
+                    defblocks = [b for b, _ in inR]
+                    if e["block"] not in defblocks and e["block"] in body.reach(starts, avoid_blocks=avoid_blocks + defblocks, avoid_edges=av_e, stop_blocks=stop_blocks):
+                        continue
+                    out += [h for h in hyp if h not in out]
+                    added = True
+                    break
+            if not added:
+                break
         return out
 
     def must_reach(self, starts, goal_blocks, exit_blocks):
@@ -531,7 +549,7 @@ class BodyInfo:
         r = self.body.reach(starts, avoid_blocks=goal_blocks, stop_blocks=exit_blocks)
         bad = [b for b in exit_blocks if b in r]
         if bad:
-            inf = self.infeasible_from(starts)
+            inf = self.infeasible_from(starts, avoid_blocks=goal_blocks, stop_blocks=exit_blocks)
             if inf:
                 r = self.body.reach(starts, avoid_blocks=goal_blocks, stop_blocks=exit_blocks, avoid_edges=inf)
                 bad = [b for b in exit_blocks if b in r]
